@@ -36,7 +36,7 @@ def variants(rng, toks, cap):
     n = len(toks)
     # comments at every token boundary
     for i in range(n + 1):
-        for cm in (b"/*c*/", b"//c\n", b"/**/"):
+        for cm in (b"/*c*/", b"//c\n", b"/**/", b"/***/", b"/* * / ** */", b"/*a**/", b"/****/", b"// /* \n", b"/*//*/"):
             out.append(("comment", True, tokgen.ttext(toks[:i]) + cm + tokgen.ttext(toks[i:]), None))
     for i, (k, b) in enumerate(toks):
         pre, post = tokgen.ttext(toks[:i]), tokgen.ttext(toks[i + 1:])
